@@ -69,27 +69,159 @@ func (e *Engine) precedenceTable() (map[string]int64, token.Pos) {
 	return out, init.Pos()
 }
 
-// registrations returns token -> handler name for registerPrefix/registerInfix calls in constructor fn.
+// registrations returns token -> handler name for what the constructor fn puts into the parser's prefix/infix table
+// (which = "registerPrefix" / "registerInfix" selects the table). The writes are found wherever they happen – directly,
+// through the register helper, through a variadic or looping helper – by following the map updates of the table field
+// through package-local calls and resolving key and handler in the calling context.
 func (e *Engine) registrations(fn *ssa.Function, which string) map[string]string {
+	field := "prefixParseFns"
+	if which == "registerInfix" {
+		field = "infixParseFns"
+	}
 	out := map[string]string{}
-	instrs(fn, func(in ssa.Instruction) {
-		c, ok := in.(*ssa.Call)
-		if !ok || c.Call.StaticCallee() == nil || c.Call.StaticCallee().Name() != which {
-			return
+	var walk func(g *ssa.Function, ctx []callCtx, depth int)
+	walk = func(g *ssa.Function, ctx []callCtx, depth int) {
+		instrs(g, func(in ssa.Instruction) {
+			switch x := in.(type) {
+			case *ssa.MapUpdate:
+				if f, _ := loadedField(x.Map); f == nil || f.Name() != field {
+					return
+				}
+				h := "?"
+				for _, hf := range e.closuresOf(x.Value, ctx, 0) {
+					h = hf.Name()
+				}
+				for _, tok := range e.constStringsOf(x.Key, ctx, 0) {
+					out[tok] = h
+				}
+			case *ssa.Call:
+				c := x.Call.StaticCallee()
+				if c == nil || c.Blocks == nil || e.fnRole(c) != "lang" || depth >= 3 || c == fn {
+					return
+				}
+				// only helpers that can write the table
+				writes := false
+				for h := range e.reach(c) {
+					instrs(h, func(j ssa.Instruction) {
+						if mu, ok := j.(*ssa.MapUpdate); ok {
+							if f, _ := loadedField(mu.Map); f != nil && f.Name() == field {
+								writes = true
+							}
+						}
+					})
+				}
+				if writes {
+					walk(c, append(append([]callCtx{}, ctx...), callCtx{x, c}), depth+1)
+				}
+			}
+		})
+	}
+	walk(fn, nil, 0)
+	return out
+}
+
+// constStringsOf: the constant strings v can be, resolving parameters through ctx, phis, and the elements of slices
+// built in place (variadic arguments, slice literals ranged over).
+func (e *Engine) constStringsOf(v ssa.Value, ctx []callCtx, depth int) []string {
+	if depth > 8 {
+		return nil
+	}
+	v = strip(v)
+	if s, ok := constString(v); ok {
+		return []string{s}
+	}
+	var out []string
+	switch x := v.(type) {
+	case *ssa.Parameter:
+		if rv, rctx := resolveParam(x, ctx); rv != ssa.Value(x) {
+			return e.constStringsOf(rv, rctx, depth+1)
 		}
-		tok, ok := constString(c.Call.Args[1])
-		if !ok {
-			return
+	case *ssa.Phi:
+		for _, ed := range x.Edges {
+			out = append(out, e.constStringsOf(ed, ctx, depth+1)...)
 		}
-		h := "?"
-		if mc, ok := strip(c.Call.Args[2]).(*ssa.MakeClosure); ok {
-			if f := e.unwrap(mc.Fn.(*ssa.Function)); f != nil {
-				h = f.Name()
+	case *ssa.Extract:
+		if nx, ok := x.Tuple.(*ssa.Next); ok && x.Index == 2 {
+			if rg, ok := nx.Iter.(*ssa.Range); ok {
+				return e.elemStringsOf(rg.X, ctx, depth+1)
 			}
 		}
-		out[tok] = h
-	})
+	case *ssa.UnOp:
+		// element of a slice/array: s[i]
+		if ia, ok := x.X.(*ssa.IndexAddr); ok && x.Op == token.MUL {
+			return e.elemStringsOf(ia.X, ctx, depth+1)
+		}
+	case *ssa.Index:
+		return e.elemStringsOf(x.X, ctx, depth+1)
+	}
 	return out
+}
+
+// elemStringsOf: the constant strings stored in the slice/array s.
+func (e *Engine) elemStringsOf(s ssa.Value, ctx []callCtx, depth int) []string {
+	if depth > 8 {
+		return nil
+	}
+	s = strip(s)
+	switch x := s.(type) {
+	case *ssa.Parameter:
+		if rv, rctx := resolveParam(x, ctx); rv != ssa.Value(x) {
+			return e.elemStringsOf(rv, rctx, depth+1)
+		}
+	case *ssa.Slice:
+		return e.elemStringsOf(x.X, ctx, depth+1)
+	case *ssa.UnOp:
+		if x.Op == token.MUL {
+			return e.elemStringsOf(x.X, ctx, depth+1)
+		}
+	case *ssa.Alloc:
+		var out []string
+		for _, r := range refsOf(x) {
+			if ia, ok := r.(*ssa.IndexAddr); ok {
+				for _, st := range storesTo(ia) {
+					out = append(out, e.constStringsOf(st.Val, ctx, depth+1)...)
+				}
+			}
+		}
+		for _, st := range storesTo(x) { // whole-array store of a composite value
+			out = append(out, e.elemStringsOf(st.Val, ctx, depth+1)...)
+		}
+		return out
+	case *ssa.Phi:
+		var out []string
+		for _, ed := range x.Edges {
+			out = append(out, e.elemStringsOf(ed, ctx, depth+1)...)
+		}
+		return out
+	}
+	return nil
+}
+
+// closuresOf: the functions (bound methods unwrapped) that the function value v can be.
+func (e *Engine) closuresOf(v ssa.Value, ctx []callCtx, depth int) []*ssa.Function {
+	if depth > 8 {
+		return nil
+	}
+	v = strip(v)
+	switch x := v.(type) {
+	case *ssa.MakeClosure:
+		if f := e.unwrap(x.Fn.(*ssa.Function)); f != nil {
+			return []*ssa.Function{f}
+		}
+	case *ssa.Function:
+		return []*ssa.Function{x}
+	case *ssa.Parameter:
+		if rv, rctx := resolveParam(x, ctx); rv != ssa.Value(x) {
+			return e.closuresOf(rv, rctx, depth+1)
+		}
+	case *ssa.Phi:
+		var out []*ssa.Function
+		for _, ed := range x.Edges {
+			out = append(out, e.closuresOf(ed, ctx, depth+1)...)
+		}
+		return out
+	}
+	return nil
 }
 
 func c06R1(e *Engine) {
@@ -132,30 +264,38 @@ func c06R1(e *Engine) {
 	// infix: right operand parsed at the operator's own precedence (looked up in the table by the current token)
 	pi := e.fn("lang", "Parser.parseInfixExpression")
 	if e.anchor("R1", "lang.Parser.parseInfixExpression", pi == nil) {
-		g := e.global("lang", "precedences")
 		ok := false
+		detail := ""
 		instrs(pi, func(in ssa.Instruction) {
 			c, isC := in.(*ssa.Call)
 			if !isC || c.Call.StaticCallee() != pe {
 				return
 			}
-			for _, src := range phiSources(c.Call.Args[1]) {
-				if ex, isEx := src.(*ssa.Extract); isEx {
-					if lk, isLk := ex.Tuple.(*ssa.Lookup); isLk {
-						if u, isU := lk.X.(*ssa.UnOp); isU && u.X == ssa.Value(g) {
-							if f, _ := loadedFieldDeep(lk.Index); f != nil && f.Name() == "Type" {
-								if fa, isFA := strip(lk.Index).(*ssa.UnOp).X.(*ssa.FieldAddr); isFA {
-									if f2 := fieldOf(fa.X); f2 != nil && f2.Name() == "curToken" {
-										ok = true
-									}
-								}
-							}
-						}
-					}
+			// the level handed down: looked up in the precedence table under the CURRENT token's type (directly or
+			// through a helper), with the lowest level as the only alternative
+			os, ks := e.originsAndKeys(c.Call.Args[1])
+			fromTable, other, cur := false, "", false
+			for _, o := range os {
+				switch {
+				case o == "mapval-of global:precedences":
+					fromTable = true
+				case strings.HasPrefix(o, "const:"):
+				default:
+					other = o
 				}
 			}
+			for _, k := range ks {
+				if k == "path:curToken.Type" {
+					cur = true
+				}
+				if strings.HasPrefix(k, "path:") && k != "path:curToken.Type" {
+					other = k
+				}
+			}
+			detail = fmt.Sprintf("(level ← %s keyed by %s)", strings.Join(os, "|"), strings.Join(ks, "|"))
+			ok = fromTable && cur && other == ""
 		})
-		e.check(ok, "R1", "lang.Parser.parseInfixExpression:operand-level", e.pos(pi.Pos()), "the right operand of a binary operator is parsed at that operator's own precedence (left-associative)")
+		e.check(ok, "R1", "lang.Parser.parseInfixExpression:operand-level", e.pos(pi.Pos()), "the right operand of a binary operator is parsed at that operator's own precedence (left-associative) %s", detail)
 	}
 	// the climbing loop compares with the precedence of the peek token
 	if pe != nil {
@@ -703,8 +843,9 @@ func c06R6(e *Engine) {
 			case "Set":
 				isMut = rn != "Environment" // Environment.Set populates the private environment
 			}
-		} else if len(cs.mutParams[g]) > 0 && name != "matchTypes" {
-			// free functions that mutate a parameter's container (setListValue …)
+		} else if cs.directMut[g] {
+			// free functions that themselves mutate a parameter's container (setListValue …); functions that only call
+			// mutators are judged by whether those mutators are reachable in this calling context
 			isMut = true
 		}
 		if isMut {
